@@ -302,6 +302,32 @@ def run(ctx):
     if rets.get(PLUGINS_VALIDATE) is not None:
         pv_callers = set(F.callers_of(PLUGINS_VALIDATE))
         rv.check({CFG_VALIDATE, POOL_VALIDATE} <= pv_callers, "wired:Plugins", "Plugins::validate is called for the general section (Config::validate) and for a pool's own (Pool::validate)", "Plugins::validate is called from %s only" % sorted(pv_callers))
+    # the general [plugins] section is in force in every pool that has none of its own, whatever that pool's parser setting (D46): it is checked whenever it is there
+    cvb_ = F.body(CFG_VALIDATE)
+    if cvb_ is not None and rets.get(PLUGINS_VALIDATE) is not None:
+        for k_, pc_ in enumerate(cvb_.calls(PLUGINS_VALIDATE)):
+            cond = set()
+            # (the tests of the validators in front of it, whose other way out is `return Err(BadConfig)`, are not conditions of the check)
+            guards = {sb for r in rets.get(CFG_VALIDATE) or [] for sb, _t in cvb_.direct_control_deps(r["block"])}
+            level, seen_sb = [pc_.block], set()
+            for _ in range(4):
+                nxt = []
+                for blk_ in level:
+                    for sb, _t in cvb_.direct_control_deps(blk_):
+                        if sb in seen_sb or sb in guards:
+                            continue
+                        if any(o.kind == "call" and re.search(r"Try>::branch$", o.call.name) for o in origins(cvb_, cvb_.blocks[sb]["term"]["op"])):
+                            continue
+                        seen_sb.add(sb)
+                        nxt.append(sb)
+                        for o in origins(cvb_, cvb_.blocks[sb]["term"]["op"], taint=True):
+                            if o.kind in ("place", "param") and o.proj:
+                                cond.update(p_[1:] for p_ in o.proj if isinstance(p_, str) and p_.startswith(".") and not p_[1:].isdigit())
+                level = nxt
+            extra = sorted(cond - {"plugins", "general"})
+            rv.check(not extra, "validator:general-plugins-checked-whenever-present#%d" % k_, "Config::validate checks the general [plugins] section under no condition but its presence",
+                     "Config::validate checks the general [plugins] section only under a condition on %s: a malformed section (an intercept schema entry without a type) is accepted when the condition is false - "
+                     "and still in force in every pool without plugins of its own, where the first intercepted query indexes past the entry and kills the client's task" % extra, pc_.where())
     vcheck("credentials-present", CFG_VALIDATE, "every user has a password unless auth_query is configured", fields=["password"])
     # ... and `auth_query is configured` is asked of the user's own pool (round 5: the any-pool helper Config::is_auth_query_configured
     # let a password-less user of a pool without auth_query through; nobody can ever log in as that user)
